@@ -100,6 +100,7 @@ def check_groups(pid, tier, groups, assumptions, chunks=10, post=None, module="E
     rs = [i for i, e in enumerate(ev0) if e["e"] == "decl" and "-r" in e["id"]]
     st = rs[0] if rs else 0
     samp = [e.get("text") + " => " + e.get("res") for e in ev0[st + 1: st + 9] if e["e"] == "cmd"]
+    detail.update(harness=dict(sess.STATS))
     detail.update(events=nev, bad_lines=nb,
                   kinds={k: sum(1 for _, ev, _, _ in results for e in ev if e["e"] == "cmd" and e["c"]["k"] == k)
                          for k in ("ins", "union", "set", "subsume", "delete", "run", "check", "push", "pop", "rule", "bad")},
